@@ -80,7 +80,7 @@ def mapInsert : Nat := 10      -- rule.py:2033 (wrapped by fixes/C04-map-key-ins
 def tupleExceed : Nat := 11    -- rule.py:1899
 def tupleAbsence : Nat := 12   -- rule.py:1903
 def allOf : Nat := 13          -- rule.py:371-373 (wrapped by fixes/C04-allof-raw-reraise)
-def oneOf : Nat := 14          -- rule.py:441
+def oneOf : Nat := 14          -- rule.py:447-451
 def negate : Nat := 15         -- rule.py:460
 def fieldValue : Nat := 16     -- field.py:1066-1089
 def fieldDiscDict : Nat := 17  -- field.py:1030-1040
@@ -512,22 +512,23 @@ def anyStage (W : World V) (stage : Nat) : List Ty → V → M (Option V)
     | some y => do clearTmp; pure (some y)
     | none => anyStage W stage ts v
 
-/-- `^`: the value is threaded through the arguments that accept it; a second acceptance is OneOfViolatedError.
-`handle_error` sits inside the same `try`, so when it raises the error is parked in tmp_errors and the loop goes on -/
-def xorLoop (W : World V) (o : Opts) : List Ty → V → Option Ty → M (V × Option Ty)
-  | [], v, x => pure (v, x)
-  | t :: ts, v, x => do
+/-- `^` (rule.py:432-455, after the C09 repair): every condition converts the ORIGINAL input in its own
+child context; a failure is parked in tmp_errors (`continue`); the first acceptance sets `xor`/`result`; a
+second one is OneOfViolatedError, handed to `handle_error` *outside* the `try`, then `break` with `xor = None`.
+State: (result, xor). -/
+def xorLoop (W : World V) (o : Opts) (v : V) : List Ty → V → Option Ty → M (V × Option Ty)
+  | [], res, x => pure (res, x)
+  | t :: ts, res, x => do
     enterCheck W 0
     let r ← tryExcept (do let y ← isolated (W.conv t v); pure (some y)) (fun e => do collectTmp e; pure none)
     match r with
-    | none => xorLoop W o ts v x
+    | none => xorLoop W o v ts res x
     | some y =>
       match x with
-      | none => xorLoop W o ts y (some t)
+      | none => xorLoop W o v ts y (some t)
       | some _ => do
-        let stop ← tryExcept (do handleError o (mk K.oneOf Site.oneOf); pure true)
-          (fun e => do collectTmp e; pure false)
-        if stop then pure (y, none) else xorLoop W o ts y x
+        handleError o (mk K.oneOf Site.oneOf)
+        pure (res, none)
 
 def notLoop (W : World V) (o : Opts) : List Ty → V → M Unit
   | [], _ => pure ()
@@ -566,12 +567,16 @@ def logicalParse (W : World V) (L : Legacy) (o : Opts) (c : Comb) (args : List T
         | none => do
           raiseError
           pure v
-  | .xor =>
-    if args.any (fun t => W.typeIs v t) then pure v else do
-    let r ← xorLoop W o args v none
-    if r.2.isSome then clearTmp else pure ()
-    raiseError
-    pure r.1
+  | .xor => do
+    -- no exact-type shortcut any more: a value of one condition's type is still checked against the others
+    let r ← xorLoop W o v args v none
+    if r.2.isSome then do
+      clearTmp
+      raiseError
+      pure r.1                           -- `value = result`
+    else do
+      raiseError
+      pure v
   | .not => do
     notLoop W o args v
     raiseError
